@@ -1,7 +1,7 @@
 (* C10 -- Context association invariants hold after any sequence of context changes.
    Property theorems only (model: Mdib/Model.v + Mdib/Context.v). *)
 From Coq Require Import List ZArith.
-From SDC Require Import Mdib.Model Mdib.Proofs Mdib.Context Mdib.Context_Proofs.
+From SDC Require Import Mdib.Model Mdib.Proofs Mdib.Context Mdib.Context_Proofs Mdib.Context_Handler_Proofs.
 Import ListNotations.
 Open Scope Z_scope.
 
@@ -58,3 +58,158 @@ Example C10_nonvacuous :
   assoc_states m2 5 = [11] /\ ver m2 = 11 /\
   cstates m2 12 = Some (mkCState 5 2 1 A_DIS (Some 10) (Some 11) 8).
 Proof. vm_compute. repeat split. Qed.
+
+(* ================================================================ the association invariant, for histories
+   (proofs: Mdib/Context_Handler_Proofs.v)
+
+   ctx_inv m :=  NoDup (cdom m)                                              handles are listed once
+              /\ (forall k c, cstates m k = Some c -> In k (cdom m))         every state's handle is listed
+              /\ (forall dh, length (assoc_states m dh) <= 1)                at most one associated state per descriptor
+              /\ assoc_open m                                                an associated state has no unbinding version
+
+   assoc_step m m' :=  no state deleted or moved to another descriptor
+              /\ a state associated in m and not in m' is A_DIS with c_unbind = Some (ver m')
+              /\ a state associated in m' and not (or not existing) in m has c_bind = Some (ver m')
+              /\ (m' = m \/ ver m' = ver m + 1)
+
+   The only hypothesis about the inputs is that uuid4 handles are fresh: the handles an operation draws have never
+   been used in the MDIB.  The proposal lists are ARBITRARY (any number of proposals, for one or several
+   descriptors, new / existing / unknown handles, any association codes, accepted or rejected). *)
+Lemma C10_ctx_inv_unfold : forall m,
+  ctx_inv m <-> (NoDup (cdom m) /\ (forall k c, cstates m k = Some c -> In k (cdom m)) /\
+                 (forall dh, (length (assoc_states m dh) <= 1)%nat) /\
+                 (forall k c, cstates m k = Some c -> c_assoc c = A_ASSOC -> c_unbind c = None)).
+Proof. intros m. reflexivity. Qed.
+
+(* the SetContextState handler with a single proposal preserves the invariant *)
+Theorem C10_handler_single_preserves : forall m fresh p,
+  ctx_inv m -> (forall h, In h fresh -> ~ In h (cdom m)) ->
+  ctx_inv (fst (set_context_state m fresh [p])).
+Proof. exact handler_single_preserves. Qed.
+Print Assumptions C10_handler_single_preserves.
+
+(* ... and so does the handler with ANY proposal list *)
+Theorem C10_handler_preserves : forall m fresh ps,
+  ctx_inv m -> (forall h, In h fresh -> ~ In h (cdom m)) ->
+  ctx_inv (fst (set_context_state m fresh ps)).
+Proof. exact handler_preserves. Qed.
+Print Assumptions C10_handler_preserves.
+
+(* the version clauses of the handler (any proposal list): nothing is deleted or re-parented; a state that stopped
+   being associated is marked disassociated with the unbinding version of this commit; a state that became
+   associated (or is new and associated) has the binding version of this commit; if anything changed MdibVersion
+   was incremented by exactly one; a failed operation changes nothing *)
+Theorem C10_handler_versions : forall m fresh ps,
+  ctx_inv m -> (forall h, In h fresh -> ~ In h (cdom m)) ->
+  let m' := fst (set_context_state m fresh ps) in
+  (forall k c, cstates m k = Some c -> exists c', cstates m' k = Some c' /\ c_dh c' = c_dh c) /\
+  (forall k c c', cstates m k = Some c -> cstates m' k = Some c' -> c_assoc c = A_ASSOC -> c_assoc c' <> A_ASSOC ->
+     c_assoc c' = A_DIS /\ c_unbind c' = Some (ver m + 1)) /\
+  (forall k c', cstates m' k = Some c' -> c_assoc c' = A_ASSOC ->
+     match cstates m k with Some c => c_assoc c <> A_ASSOC | None => True end ->
+     c_bind c' = Some (ver m + 1)) /\
+  (m' <> m -> ver m' = ver m + 1) /\
+  (snd (set_context_state m fresh ps) = 1 -> m' = m).
+Proof. exact handler_versions. Qed.
+Print Assumptions C10_handler_versions.
+
+(* states of descriptors for which the request proposes nothing are untouched; the only new handles are drawn ones *)
+Theorem C10_handler_frame : forall m fresh ps,
+  ctx_inv m -> (forall h, In h fresh -> ~ In h (cdom m)) ->
+  forall k c, cstates m k = Some c -> (forall p, In p ps -> pr_dh p <> c_dh c) ->
+  cstates (fst (set_context_state m fresh ps)) k = Some c.
+Proof. exact handler_frame. Qed.
+Print Assumptions C10_handler_frame.
+
+Theorem C10_handler_handles : forall m fresh ps,
+  ctx_inv m -> (forall h, In h fresh -> ~ In h (cdom m)) ->
+  forall k, In k (cdom (fst (set_context_state m fresh ps))) -> In k (cdom m) \/ In k fresh.
+Proof. exact handler_dom. Qed.
+Print Assumptions C10_handler_handles.
+
+(* a location change preserves the invariant (whether it is committed or rejected) *)
+Theorem C10_set_location_preserves : forall m dh h p,
+  ctx_inv m -> ~ In h (cdom m) -> ctx_inv (fst (set_location m dh h p)).
+Proof. exact set_location_preserves. Qed.
+Print Assumptions C10_set_location_preserves.
+
+(* histories: any list of location changes and SetContextState operations with arbitrary proposal lists.
+   Dynamic side condition [hist_fresh m ops]: no operation draws a handle the MDIB has ever used:
+     hist_fresh m []       = True
+     hist_fresh m (o :: r) = (forall h, In h (op_handles o) -> ~ In h (cdom m)) /\ hist_fresh (fst (cstep m o)) r
+   with op_handles (CLoc _ h _) = [h], op_handles (CSet fresh _) = fresh.
+   The invariant holds after every prefix *)
+Theorem C10_history : forall ops m,
+  ctx_inv m -> hist_fresh m ops -> forall n, ctx_inv (crun m (firstn n ops)).
+Proof. exact history_inv. Qed.
+Print Assumptions C10_history.
+
+(* static side condition, a predicate on the history alone: the drawn handles are pairwise distinct and unused in the
+   initial MDIB (what uuid4 provides) *)
+Theorem C10_history_static : forall ops m,
+  ctx_inv m -> NoDup (hist_handles ops) -> (forall h, In h (hist_handles ops) -> ~ In h (cdom m)) ->
+  forall n, ctx_inv (crun m (firstn n ops)).
+Proof. exact history_inv_static. Qed.
+Print Assumptions C10_history_static.
+
+(* ... and every step of such a history satisfies the version clauses, with the versions equal to the MdibVersion
+   at which the change became visible (ver of the state after the step) *)
+Theorem C10_history_versions : forall ops m,
+  ctx_inv m -> NoDup (hist_handles ops) -> (forall h, In h (hist_handles ops) -> ~ In h (cdom m)) ->
+  forall n o, nth_error ops n = Some o ->
+  let a := crun m (firstn n ops) in
+  let b := crun m (firstn (S n) ops) in
+  b = fst (cstep a o) /\
+  (forall k c, cstates a k = Some c -> exists c', cstates b k = Some c' /\ c_dh c' = c_dh c) /\
+  (forall k c c', cstates a k = Some c -> cstates b k = Some c' -> c_assoc c = A_ASSOC -> c_assoc c' <> A_ASSOC ->
+     c_assoc c' = A_DIS /\ c_unbind c' = Some (ver b)) /\
+  (forall k c', cstates b k = Some c' -> c_assoc c' = A_ASSOC ->
+     match cstates a k with Some c => c_assoc c <> A_ASSOC | None => True end ->
+     c_bind c' = Some (ver b)) /\
+  (b = a \/ ver b = ver a + 1).
+Proof. exact history_steps_static. Qed.
+Print Assumptions C10_history_versions.
+
+(* the hypotheses are satisfiable on a non-trivial state and history: two context descriptors (5, 6) with one
+   associated state each; a location change, a disassociation, a request with proposals for two descriptors
+   (a new associated patient + re-association of the old location), and a request with two proposals for ONE
+   descriptor (re-associate 11, update 14) - the first proposal of the last request is LOST (11 stays
+   disassociated: the copy of the second proposal overwrites it), but the invariant holds *)
+Definition C10_ex_m : mdib :=
+  mkMdib (fun h => if Z.eqb h 5 then Some (mkDescr None K_CTX 2 1) else
+                   if Z.eqb h 6 then Some (mkDescr None K_CTX 0 1) else None) (fun _ => None)
+         (fun h => if Z.eqb h 11 then Some (mkCState 5 2 0 A_ASSOC (Some 3) None 7) else
+                   if Z.eqb h 21 then Some (mkCState 6 0 0 A_ASSOC (Some 1) None 7) else None)
+         9 (fun _ => None) (fun _ => None) (fun _ => None) [5; 6] [11; 21].
+Definition C10_ex_ops : list cop :=
+  [CLoc 6 22 8;
+   CSet [13] [mkProp 5 (Some 11) A_DIS 9];
+   CSet [14; 15] [mkProp 5 None A_ASSOC 1; mkProp 6 (Some 21) A_ASSOC 2];
+   CSet [16] [mkProp 5 (Some 11) A_ASSOC 3; mkProp 5 (Some 14) A_NO 4]].
+
+Example C10_history_nonvacuous :
+  ctx_inv C10_ex_m /\ NoDup (hist_handles C10_ex_ops) /\
+  (forall h, In h (hist_handles C10_ex_ops) -> ~ In h (cdom C10_ex_m)) /\
+  map (fun n => let x := crun C10_ex_m (firstn n C10_ex_ops) in (ver x, assoc_states x 5, assoc_states x 6))
+      [0; 1; 2; 3; 4]%nat =
+  [(9, [11], [21]); (10, [11], [22]); (11, [], [22]); (12, [14], [21]); (13, [], [21])] /\
+  cstates (crun C10_ex_m C10_ex_ops) 14 = Some (mkCState 5 2 1 A_DIS (Some 12) (Some 13) 4).
+Proof.
+  split; [|split; [|split; [|split]]].
+  - split; [|split; [|split]].
+    + repeat constructor; cbn; intuition discriminate.
+    + intros k c. cbn. destruct (Z.eqb_spec k 11) as [->|_]; [intros _; now left|].
+      destruct (Z.eqb_spec k 21) as [->|_]; [intros _; right; now left|discriminate].
+    + intros dh. destruct (Z.eq_dec dh 5) as [->|N5]; [vm_compute; apply le_n|].
+      destruct (Z.eq_dec dh 6) as [->|N6]; [vm_compute; apply le_n|].
+      destruct (assoc_states C10_ex_m dh) as [|x r] eqn:E; [apply Nat.le_0_l|]. exfalso.
+      assert (Hx : In x (assoc_states C10_ex_m dh)) by (rewrite E; now left).
+      apply assoc_states_in in Hx as (Hi & c & Ec & Ed & _).
+      destruct Hi as [<-|[<-|[]]]; vm_compute in Ec; injection Ec as <-; cbn in Ed; congruence.
+    + intros k c. cbn. destruct (Z.eqb k 11); [intros [= <-]; reflexivity|].
+      destruct (Z.eqb k 21); [intros [= <-]; reflexivity|discriminate].
+  - repeat constructor; cbn; intuition discriminate.
+  - cbn. intros h Hh Hc. intuition (subst; discriminate).
+  - vm_compute. reflexivity.
+  - vm_compute. reflexivity.
+Qed.
